@@ -32,11 +32,11 @@ func (r *Rand) Intn(n int) int {
 	}
 	return int(r.U64() % uint64(n))
 }
-func (r *Rand) Bool() bool          { return r.U64()&1 == 1 }
-func (r *Rand) Chance(p int) bool   { return r.Intn(100) < p } // p percent
+func (r *Rand) Bool() bool           { return r.U64()&1 == 1 }
+func (r *Rand) Chance(p int) bool    { return r.Intn(100) < p } // p percent
 func (r *Rand) Range(lo, hi int) int { return lo + r.Intn(hi-lo+1) }
 func Pick[T any](r *Rand, xs []T) T  { return xs[r.Intn(len(xs))] }
-func (r *Rand) Fork() *Rand         { return &Rand{s: r.U64()} }
+func (r *Rand) Fork() *Rand          { return &Rand{s: r.U64()} }
 func (r *Rand) Bytes(n int) []byte {
 	b := make([]byte, n)
 	for i := range b {
@@ -47,8 +47,8 @@ func (r *Rand) Bytes(n int) []byte {
 
 // ---------- Coq emitters ----------
 
-func CoqBytes(b []byte) string  { return `(hx "` + hex.EncodeToString(b) + `")` }
-func CoqStr(s string) string    { return CoqBytes([]byte(s)) }
+func CoqBytes(b []byte) string { return `(hx "` + hex.EncodeToString(b) + `")` }
+func CoqStr(s string) string   { return CoqBytes([]byte(s)) }
 func CoqBool(b bool) string {
 	if b {
 		return "true"
@@ -61,8 +61,8 @@ func CoqZ(n int64) string {
 	}
 	return fmt.Sprintf("%d%%Z", n)
 }
-func CoqN(n uint64) string   { return fmt.Sprintf("%d%%N", n) }
-func CoqNat(n int) string    { return fmt.Sprintf("%d%%nat", n) }
+func CoqN(n uint64) string       { return fmt.Sprintf("%d%%N", n) }
+func CoqNat(n int) string        { return fmt.Sprintf("%d%%nat", n) }
 func CoqList(xs []string) string { return "[" + strings.Join(xs, "; ") + "]" }
 func CoqStrList(xs []string) string {
 	o := make([]string, len(xs))
@@ -84,11 +84,11 @@ func CoqPair(a, b string) string { return "(" + a + ", " + b + ")" }
 // Failure is a concrete input on which the property's executable oracle fails on the
 // implementation (independent of the Coq model).
 type Failure struct {
-	Sig    string      `json:"sig"`    // stable signature used to match known_findings.json
-	What   string      `json:"what"`   // human description
-	Input  interface{} `json:"input"`  // replayable input
-	Got    interface{} `json:"got,omitempty"`
-	Want   interface{} `json:"want,omitempty"`
+	Sig   string      `json:"sig"`   // stable signature used to match known_findings.json
+	What  string      `json:"what"`  // human description
+	Input interface{} `json:"input"` // replayable input
+	Got   interface{} `json:"got,omitempty"`
+	Want  interface{} `json:"want,omitempty"`
 }
 
 type Case struct {
